@@ -44,9 +44,12 @@ def plane_case(draw, tier):
             blobs.append((quad[j][0] + rng.uniform(-0.4, 0.4), quad[j][1] + rng.uniform(-0.4, 0.4), sig))
     # pixel scales from nanometres (sampled surfaces, detector-side planes) to decimetres
     ps = draw(gen.pos_log(1e-4, 1e-2)) if draw(st.booleans()) else draw(gen.pos_log(1e-9, 1e-1))
+    via_resample = draw(st.sampled_from([False, False, True]))
+    # rectangular samples (a per-axis pixel scale) are rescaled too; resample() refuses them (resample_refusals)
+    ratio = 1.0 if via_resample else draw(st.sampled_from([1.0, 1.0, 1.0, 0.5, 2.0, 1.37]))
     return {"shape": list(shape), "scale": s, "nseg": nseg, "blobs": [list(b) for b in blobs], "seed": k,
-            "pixelscale": ps, "opd_waves": draw(st.sampled_from([0.0, 0.05, 0.2])),
-            "via_resample": draw(st.sampled_from([False, False, True])), "cls": draw(st.sampled_from(["Pupil", "Plane"]))}
+            "pixelscale": ps, "ps_ratio": ratio, "opd_waves": draw(st.sampled_from([0.0, 0.05, 0.2])),
+            "via_resample": via_resample, "cls": draw(st.sampled_from(["Pupil", "Plane"]))}
 
 
 def build(case):
@@ -81,8 +84,9 @@ def build(case):
 
 def make_plane(case, amp, opd, mask):
     lay = ["C", "F", "strided", "transposed_view"][case["seed"] % 4]
+    ratio = case.get("ps_ratio", 1.0)
     kw = dict(amplitude=gen.relayout(amp.copy(), lay), opd=gen.relayout(opd.copy(), lay), mask=None if mask is None else mask.copy(),
-              pixelscale=case["pixelscale"])
+              pixelscale=case["pixelscale"] if ratio == 1.0 else (case["pixelscale"], case["pixelscale"] * ratio))
     return lentil.Pupil(focal_length=10.0, **kw) if case["cls"] == "Pupil" else lentil.Plane(**kw)
 
 
@@ -136,7 +140,9 @@ def rescale(case, ctx):
         raise Violation("C17.original_mutated", "rescale/resample changed the original plane's pixel scale / returned self")
     # bookkeeping
     s_eff = ps / (ps / s) if case["via_resample"] else s
-    want_ps = (ps / s_eff, ps / s_eff)
+    ps1 = ps * case.get("ps_ratio", 1.0)
+    want_ps = (ps / s_eff, ps1 / s_eff)
+    ctx.tag("rectangular_samples" if ps1 != ps else None)
     if tuple(q.pixelscale) != want_ps:
         raise Violation("C17.pixelscale", f"pixel scale {tuple(q.pixelscale)} != old/s = {want_ps} (s = {s_eff})")
     want_shape = (int(np.ceil(m * s_eff)), int(np.ceil(n * s_eff)))
@@ -151,7 +157,7 @@ def rescale(case, ctx):
     elif qm.ndim != 2:
         raise Violation("C17.mask.segments", f"monolithic mask became {qm.ndim}-D")
     if abs(want_ps[0] * want_shape[0] - ps * m) > want_ps[0] * (1 + 1e-9) or \
-            abs(want_ps[1] * want_shape[1] - ps * n) > want_ps[1] * (1 + 1e-9):
+            abs(want_ps[1] * want_shape[1] - ps1 * n) > want_ps[1] * (1 + 1e-9):
         raise Violation("C17.extent", "physical extent changed by more than one sample")
     if q.ptype != p.ptype or (case["cls"] == "Pupil" and q.focal_length != p.focal_length):
         raise Violation("C17.meta", "plane type / focal length changed")
@@ -167,6 +173,8 @@ def rescale(case, ctx):
     if case["cls"] == "Pupil":
         # output sampling chosen so that the image of the original is well resolved: alpha*n = 0.35
         du = 0.35 / max(m, n) * wl * 10.0 / ps
+        if ps1 != ps:
+            du = (du, 0.35 / max(m, n) * wl * 10.0 / ps1)          # the same alpha on both axes
         with lentil_call("C17.image", "propagate original and rescaled"):
             I0 = lentil.propagate_dft(lentil.Wavefront(wl) * p, pixelscale=du, shape=(16, 16), oversample=1).intensity
             I1 = lentil.propagate_dft(lentil.Wavefront(wl) * q, pixelscale=du, shape=(16, 16), oversample=1).intensity
